@@ -65,6 +65,9 @@ impl Serializer for Tok {
     type SerializeMap = serde::ser::Impossible<u8, SerErr>;
     type SerializeStruct = serde::ser::Impossible<u8, SerErr>;
     type SerializeStructVariant = serde::ser::Impossible<u8, SerErr>;
+    fn is_human_readable(&self) -> bool {
+        unsafe { SER_HUMAN }
+    }
     fn serialize_u8(self, v: u8) -> Result<u8, SerErr> {
         // the payload forwards its own byte; answer depends on token and value. When a failure is injected the
         // SERIALIZER fails with a structured error of its own (not one made by `custom`, which a re-rendering
@@ -110,6 +113,7 @@ static mut SER_CALLS: usize = 0;
 static mut SER_ADDR: usize = 0;
 static mut SER_TOKEN: u8 = 0;
 static mut SER_FAIL: Option<u8> = None;
+static mut SER_HUMAN: bool = true;
 struct P(u8);
 impl Serialize for P {
     fn serialize<S: Serializer>(&self, s: S) -> Result<S::Ok, S::Error> {
@@ -136,6 +140,7 @@ fn ser_contract<Hd: Serialize>(handle: &Hd, payload_addr: usize, v: u8) {
     let tok: u8 = kani::any();
     let fail: bool = kani::any();
     let by_serializer: bool = kani::any();
+    unsafe { SER_HUMAN = kani::any() }; // binary and textual formats alike
     kani::assume(tok != 255 ^ 9); // keep the serializer's own error distinct from what `custom` yields
     unsafe { SER_FAIL = if fail { Some(if by_serializer { 9 } else { 1 }) } else { None } };
     let direct = P(v).serialize(Tok(tok));
